@@ -216,4 +216,99 @@ theorem append_dependence (s : St) (lhs x : Nat) (m : Int) (hr : s.isRecording =
     | none => simp [hr]
     | some last => simp [hr, hall last hl]
 
+/-! ### array forms of the user-supplied dependences -/
+
+/-- value of the right-hand side of a term list: `Σ mⱼ·g[xⱼ]` -/
+def termSum (ts : List (Nat × Int)) (g : Vec Int) : Int := ts.foldl (fun a t => a + t.2 * rd g t.1) 0
+
+theorem foldl_add_shift (ops : List (Int × Nat)) (g : Vec Int) (a : Int) :
+    ops.foldl (fun a p => a + p.1 * rd g p.2) a = a + ops.foldl (fun a p => a + p.1 * rd g p.2) 0 := by
+  induction ops generalizing a with
+  | nil => simp
+  | cons p ps ih =>
+    simp only [List.foldl_cons]
+    rw [ih (a + p.1 * rd g p.2), ih (0 + p.1 * rd g p.2)]
+    omega
+
+theorem termSum_shift (ts : List (Nat × Int)) (g : Vec Int) (a : Int) :
+    ts.foldl (fun a t => a + t.2 * rd g t.1) a = a + termSum ts g := by
+  unfold termSum
+  induction ts generalizing a with
+  | nil => simp
+  | cons t tl ih =>
+    simp only [List.foldl_cons]
+    rw [ih (a + t.2 * rd g t.1), ih (0 + t.2 * rd g t.1)]
+    omega
+
+/-- dropping the zero multipliers does not change the sum -/
+theorem rhsVal_depOps (ts : List (Nat × Int)) (g : Vec Int) : rhsVal (depOps ts) g = termSum ts g := by
+  unfold rhsVal depOps termSum
+  induction ts with
+  | nil => rfl
+  | cons t tl ih =>
+    by_cases hm : t.2 = 0
+    · simp only [List.filter_cons, hm, ne_eq, not_true_eq_false, decide_false, Bool.false_eq_true, if_false,
+        List.foldl_cons, Int.zero_mul, Int.add_zero]
+      exact ih
+    · simp only [List.filter_cons, hm, ne_eq, not_false_eq_true, decide_true, if_true, List.map_cons, List.foldl_cons]
+      rw [foldl_add_shift, termSum_shift, ih]
+      rfl
+
+theorem dependenceN_is_statement (lhs : Nat) (ts : List (Nat × Int)) (g : Vec Int) :
+    fwdStep (addDepN lhs ts) g = g.set lhs (termSum ts g) := by
+  unfold fwdStep addDepN
+  simp only [rhsVal_depOps]
+
+theorem appendN_is_extension (st : Stmt Int) (ts : List (Nat × Int)) (g : Vec Int) :
+    fwdStep (appendDepN st ts) g = g.set st.lhs (rhsVal st.ops g + termSum ts g) := by
+  unfold fwdStep appendDepN
+  simp only
+  congr 1
+  unfold rhsVal
+  rw [List.foldl_append, foldl_add_shift]
+  have := rhsVal_depOps ts g
+  unfold rhsVal at this
+  rw [this]
+
+theorem add_dependenceN_records (s : St) (lhs : Nat) (ts : List (Nat × Int)) (hr : s.isRecording = true)
+    (hp : s.pend = []) :
+    (s.addDependenceN lhs ts).tape = s.tape ++ [addDepN lhs ts] ∧ (s.addDependenceN lhs ts).pend = [] := by
+  unfold St.addDependenceN
+  simp [hr, St.pushLhs, St.pushRhs, addDepN, hp]
+
+/-- the array form is the single-term form repeated: first term added, the others appended -/
+theorem depOps_cons (x : Nat) (m : Int) (ts : List (Nat × Int)) :
+    depOps ((x, m) :: ts) = (if m ≠ 0 then [(m, x)] else []) ++ depOps ts := by
+  unfold depOps
+  by_cases hm : m = 0 <;> simp [List.filter_cons, hm]
+
+theorem addDepN_cons (lhs x : Nat) (m : Int) (ts : List (Nat × Int)) :
+    addDepN lhs ((x, m) :: ts) = appendDepN (addDep lhs x m) ts := by
+  unfold addDepN appendDepN addDep
+  simp only [depOps_cons]
+
+theorem appendDepN_cons (st : Stmt Int) (x : Nat) (m : Int) (ts : List (Nat × Int)) :
+    appendDepN st ((x, m) :: ts) = appendDepN (appendDep st x m) ts := by
+  unfold appendDepN appendDep
+  simp only [depOps_cons, List.append_assoc]
+
+theorem append_dependenceN (s : St) (lhs : Nat) (ts : List (Nat × Int)) (hr : s.isRecording = true) :
+    (∀ last, s.tape.getLast? = some last → last.lhs = lhs →
+        s.appendDependenceN lhs ts = .ok { s with tape := s.tape.dropLast ++ [appendDepN last ts] }) ∧
+    ((∀ last, s.tape.getLast? = some last → last.lhs ≠ lhs) →
+        s.appendDependenceN lhs ts = .error .wrong_gradient) := by
+  unfold St.appendDependenceN
+  constructor
+  · intro last hl hlhs
+    simp [hr, hl, hlhs]
+  · intro hall
+    cases hl : s.tape.getLast? with
+    | none => simp [hr]
+    | some last => simp [hr, hall last hl]
+
+theorem dependenceN_paused (s : St) (lhs : Nat) (ts : List (Nat × Int)) (hr : s.isRecording = false) :
+    s.addDependenceN lhs ts = s ∧ s.appendDependenceN lhs ts = .ok s := by
+  unfold St.addDependenceN St.appendDependenceN
+  simp [hr]
+
 end Adept.StackProto
